@@ -76,6 +76,33 @@ def hostile_lines(rng, n):
             variants |= {mutate(rng, sd) for _ in range(max(4, n // 20))}
             for v in sorted(variants):
                 lines.append("c19.typed_parse\t%s\t%s" % (kind, hx(v))); meta.append(("c19.typed_parse:" + kind, v))
+    # JSON texts offered to the deserializers of Address / Mailbox / Mailboxes / Envelope: the string form, the object form {user, domain} with
+    # every kind of invalid part, lists, envelopes with either form inside - an error value, never a panic
+    import json as _json
+    users = ["a", "", "a..b", ".a", "a.", "a b", "a@b", "\u0000", "\u00e9", "\"q\"", "x" * 70]
+    doms = ["x.example", "", "-", "x..y", "a b", "[1.2.3]", "[127.0.0.1]", ".x", "x.", "xn--", "\u00e9.example", "x" * 260, "a@b"]
+    jt = []
+    for u in users:
+        for d in doms:
+            if u != "a" and d != "x.example" and rng.random() < 0.7:
+                continue
+            obj, st_ = {"user": u, "domain": d}, u + "@" + d
+            for a in (obj, st_):
+                jt.append(("address", a)); jt.append(("mailbox", {"name": "N", "email": a})); jt.append(("mailbox", {"name": None, "email": a}))
+                jt.append(("mailboxes", [{"name": "N", "email": a}, "b@y.example"])); jt.append(("envelope", {"forward_path": [a], "reverse_path": None}))
+                jt.append(("envelope", {"forward_path": ["b@y.example", a], "reverse_path": a}))
+    jt += [(k, v) for k in ("address", "mailbox", "mailboxes", "envelope") for v in ({}, [], None, 0, "", {"user": "a"}, {"domain": "x.example"}, {"user": 1, "domain": 2}, {"user": "a", "domain": "x.example", "user ": "b"},
+                                                                                      {"user": "a", "user": "b", "domain": "x.example"}, [[]], {"email": {}}, {"forward_path": {}}, {"forward_path": [{}]})]
+    for kind, v in jt:
+        x = _json.dumps(v).encode()
+        lines.append("c19.json\t%s\t%s" % (kind, hx(x))); meta.append(("c19.json:" + kind, x))
+        if rng.random() < 0.15:
+            x = mutate(rng, x)
+            try:
+                x.decode("utf-8")
+            except UnicodeDecodeError:
+                continue
+            lines.append("c19.json\t%s\t%s" % (kind, hx(x))); meta.append(("c19.json:" + kind, x))
     # header values / names / file names, bodies
     for k in range(n):
         v = mutate(rng, rng.choice([b"Hello world", "Grüße".encode(), b"a" * 100, b"x  y\tz"]))
